@@ -15,7 +15,9 @@ import itertools
 import zlib
 
 from aiohttp._websocket.reader_py import WebSocketDataQueue, WebSocketReader
+from aiohttp.base_protocol import BaseProtocol  # noqa: F401
 from aiohttp.http_websocket import WebSocketError, WSMsgType
+from aiohttp.streams import EofStream
 
 from mc.core import Part
 from refs import ws as ref
@@ -130,13 +132,48 @@ CONFIGS = [
 ]
 
 
-def run_reader(stream, cuts, cfg, monitor=None):
+def _conv(m):
+    t = m.type
+    if t == WSMsgType.TEXT:
+        return ("text", m.data)
+    if t == WSMsgType.BINARY:
+        return ("binary", bytes(m.data))
+    if t == WSMsgType.PING:
+        return ("ping", bytes(m.data))
+    if t == WSMsgType.PONG:
+        return ("pong", bytes(m.data))
+    if t == WSMsgType.CLOSE:
+        return ("close", m.data, m.extra)
+    return ("other", repr(m))
+
+
+def _drain(q, msgs):
+    """What the application gets from the queue right now, through the call read() makes: the queued messages,
+    then - once the stream has ended - the terminal exception."""
+    while True:
+        if not q._buffer and not q._eof:
+            return None                      # read() would wait here
+        try:
+            msgs.append(_conv(q._read_from_buffer()))
+        except WebSocketError as e:
+            return ("WebSocketError", e.code)
+        except EofStream:
+            return ("EofStream", None)
+        except BaseException as e:  # noqa: BLE001
+            return (type(e).__name__, None)
+
+
+def run_reader(stream, cuts, cfg, monitor=None, consume="end", eof=False):
+    """consume: "end" = the application reads only after the last feed, "prompt" = after every feed.
+    eof: the connection ends (feed_eof) after the last byte, before the final read."""
     proto = _Proto()
     q = WebSocketDataQueue(proto, 2 ** 16, loop=None)
     r = WebSocketReader(q, cfg["max_msg_size"], cfg["compress"], cfg["decode_text"])
     prev = 0
     n_at_error = None
     worst = 0
+    msgs = []
+    term = None
     for c in list(cuts) + [len(stream)]:
         seg = stream[prev:c]
         prev = c
@@ -145,28 +182,23 @@ def run_reader(stream, cuts, cfg, monitor=None):
         except BaseException as e:  # noqa: BLE001
             return {"crash": (type(e).__name__, str(e)[:80])}
         if r._exc is not None and n_at_error is None:
-            n_at_error = len(q._buffer)
+            n_at_error = len(q._buffer) + len(msgs)
         kept = len(r._partial) + sum(len(f) for f in r._payload_fragments) + len(r._tail)
         worst = max(worst, kept)
-    msgs = []
-    for m in q._buffer:
-        t = m.type
-        if t == WSMsgType.TEXT:
-            msgs.append(("text", m.data))
-        elif t == WSMsgType.BINARY:
-            msgs.append(("binary", bytes(m.data)))
-        elif t == WSMsgType.PING:
-            msgs.append(("ping", bytes(m.data)))
-        elif t == WSMsgType.PONG:
-            msgs.append(("pong", bytes(m.data)))
-        elif t == WSMsgType.CLOSE:
-            msgs.append(("close", m.data, m.extra))
-        else:
-            msgs.append(("other", repr(m)))
+        if consume == "prompt" and term is None:
+            term = _drain(q, msgs)
+    if eof:
+        try:
+            r.feed_eof()
+        except BaseException as e:  # noqa: BLE001
+            return {"crash": (type(e).__name__, "feed_eof: " + str(e)[:70])}
+    total_after = len(q._buffer) + len(msgs)
+    if term is None:
+        term = _drain(q, msgs)
     err = None
-    if r._exc is not None:
-        err = (type(r._exc).__name__, getattr(r._exc, "code", None))
-    return {"msgs": msgs, "err": err, "after_error": None if n_at_error is None else len(q._buffer) - n_at_error,
+    if term is not None and term[0] != "EofStream":
+        err = term
+    return {"msgs": msgs, "err": err, "term": term, "after_error": None if n_at_error is None else total_after - n_at_error,
             "kept": worst, "paused": proto.pauses}
 
 
@@ -212,6 +244,25 @@ def check_stream(part: Part, names, stream, cfg, two_cuts, bytewise):
         part.violation("C12:delivered-after-error", f"{names} {cfg}: {base['after_error']} messages queued after the error", dict(case, cuts=[]))
     part.outcome((tuple(m[0] for m in got), base["err"]))
     part.state((tuple(m[0] for m in got), base["err"], cfg["compress"], cfg["max_msg_size"]))
+    # ---- what the application sees must not depend on when it reads, nor be masked by the end of the connection
+    for consume, eof in (("prompt", False), ("end", True), ("prompt", True)):
+        for cuts in ((), tuple(range(1, len(stream))) if len(stream) <= 64 else ()):
+            o = run_reader(stream, cuts, cfg, consume=consume, eof=eof)
+            part.count("executions")
+            part.count("transitions", len(cuts) + 1)
+            how = f"consumer={consume} eof={eof} cuts={'bytewise' if cuts else 'none'}"
+            if "crash" in o:
+                part.violation(f"C12:exception-escapes:{o['crash'][0]}", f"{o['crash']} for {names} ({how})", dict(case, cuts=list(cuts), consume=consume, eof=eof))
+                continue
+            if o["msgs"] != base["msgs"]:
+                part.violation("C12:consumer-dependent:messages", f"{names} {cfg} ({how}): application got {o['msgs'][:3]!r}, reading at the end gives {base['msgs'][:3]!r}",
+                               dict(case, cuts=list(cuts), consume=consume, eof=eof))
+            elif o["err"] != base["err"]:
+                part.violation("C12:consumer-dependent:error" if not eof else "C12:violation-masked-by-eof",
+                               f"{names} {cfg} ({how}): stream ends for the application with {o['term']}, without eof/at the end with {base['term']}",
+                               dict(case, cuts=list(cuts), consume=consume, eof=eof))
+            elif eof and base["err"] is None and o["term"] != ("EofStream", None) and not closed:
+                part.violation("C12:eof-not-reported", f"{names} {cfg} ({how}): after feed_eof the application gets {o['term']}", dict(case, cuts=list(cuts), consume=consume, eof=eof))
     # ---- segmentation independence + retained bytes
     n = len(stream)
     gens = [((i,) for i in range(1, n))]
@@ -359,7 +410,7 @@ def replay(case):
     stream = b"".join(T[n] for n in names)
     part = Part()
     check_stream(part, names, stream, cfg, False, False)
-    if case.get("cuts"):
+    if case.get("cuts") and not case.get("consume"):
         cuts = tuple(case["cuts"])
         base = run_reader(stream, (), cfg)
         o = run_reader(stream, cuts, cfg)
